@@ -90,4 +90,30 @@ def reqHeaders (e : Entry) : Headers := nvpToHeader Sxg.isStatefulRequestHeader 
 /-- specification side: an entry that passes the method and status filters -/
 def eligible (e : Entry) : Bool := e.method == methodGet && decide (100 ≤ e.status) && decide (e.status ≤ 999)
 
+/-- `Bundle.Validate()` (bundle.go): a primary URL must be the URL of some exchange (compared as `String()`s) -/
+def validate (b : Bundle.Bundle) : Bool :=
+  match b.primaryURL with
+  | none => true
+  | some u => b.exchanges.any (fun e => e.url = u)
+
+/-- what `gen-bundle -har` does after flag parsing (cmd/gen-bundle/main.go): `fromHar`, assemble the bundle, `Validate`
+    (unless `-ignoreErrors`), `WriteTo` the output file. `primary` / `manifest` are the `String()`s of the parsed flag values. -/
+inductive GenResult where
+  | failed                 -- log.Fatal: non-zero exit, nothing (useful) written
+  | wrote (out : Bytes)    -- exit 0, the file holds `out`
+  | panic
+  deriving Repr, DecidableEq
+
+def genBundle (ver : Bundle.BVer) (primary manifest : Option Bytes) (ignoreErrors : Bool) (entries : List Entry) : GenResult :=
+  match fromHar entries with
+  | none => .failed
+  | some es =>
+    let b : Bundle.Bundle := { version := ver, primaryURL := primary, exchanges := es, manifestURL := manifest, signatures := none }
+    if !ignoreErrors && !validate b then .failed
+    else match Bundle.write b with
+      | .ok (.ok out) => .wrote out
+      | .ok (.error _) => .failed
+      | .error => .failed
+      | .panic => .panic
+
 end WebPkg.HarWalk
